@@ -121,6 +121,7 @@ RefBindVals == RefValsF \cup RefValsG \cup RefValsH
 RefBindValsQuick == (RefValsF \ Nest2) \cup RefValsG \cup RefValsH \cup { Wrap("tuple", Wrap("tuple", GCall)), Wrap("dict", Wrap("list", GCall)) }
 RefFilterQuick(sc, c, v) == RefFilter(sc, c, v) /\ v \in RefBindValsQuick
 NamesRefs == <<"p", "q", "x">>
+RefSpellings == { <<"m","f">>, <<"f">>, <<"g">>, <<"h">>, <<"nope">> }
 
 ------------------------------------------------------------------------------
 (* C05: macros and constants *)
